@@ -56,6 +56,25 @@ def describe(fn):
     return None
 
 
+def _tail(repo, chk):
+    # ---- README cross-check -------------------------------------------------------------------------
+    readme = os.path.join(repo.root, 'README.rst')
+    if os.path.exists(readme):
+        text = open(readme, encoding='utf-8').read()
+        m = re.search(r'In order of precedence:\n((?: \*.*\n)+)', text)
+        if m:
+            rows = [re.findall(r'``([^`]+)``', ln) for ln in m.group(1).strip('\n').split('\n')]
+            want_rows = [sorted(t.keys()) for _, t in SPEC]
+            chk.expect([sorted(r) for r in rows] == want_rows, 'C11.L1', 'README operator table',
+                       f'README lists {rows}; checker spec {want_rows}', 'README.rst')
+        else:
+            chk.ok('C11.L1', 'README operator table', 'section not found; transcribed spec used alone')
+    # operators reach the parser as the tokens the ladder expects (longest match, `!=` before the `!` sigil)
+    from . import c12
+    from ..report import Remap
+    c12.run(repo, Remap(chk, {'C12.R3': 'C11.L5', 'C12.R4': 'C11.L5'}))
+
+
 def run(repo, chk):
     chk.explanation = (
         'The expression grammar is a ladder of coroutines ps_expr -> ps_expr8 -> ... -> ps_expr0.  The checker '
@@ -71,11 +90,48 @@ def run(repo, chk):
     chk.rule('C11.L4', 'unary recurses into its own level then falls to postfix; `is` wraps the unary level once; '
                        'postfix binds tighter than any operator; parentheses re-enter ps_expr; ?? takes two ps_expr8 operands')
     chk.rule('C11.L5', 'operator classes carry the token the grammar maps to them; token spellings match the documentation')
+    chk.rule('C11.L6', 'grouping table: every operator pair (unary, `is`, postfix, binary, ??, parentheses; triples by level) parsed '
+                       'by the interpreted grammar gives the tree of the documented precedence table')
     funcs = {n: f for n, f in repo.functions(GRAMMAR).items()}
     need = ['ps_expr'] + [f'ps_expr{i}' for i in range(9)] + ['bin_op']
-    for n in need:
-        if n not in funcs:
-            raise AnalysisError(f'{n} not found in grammar.py')
+    # ---- the grouping table -------------------------------------------------------------------------
+    # lexer and grammar of the tree, evaluated by the checker's interpreter (hidverif.frontend) on every entry of the finite
+    # table of operator combinations, against a precedence-climbing reference written from the documented table
+    from .. import exprtable
+    if chk.tier == 'thorough':
+        bad, n_cases = exprtable.run_table_parallel(repo.root, thorough=True)
+    else:
+        from ..frontend import Frontend
+        bad, n_cases = exprtable.run_table(Frontend(repo))
+    for label, got, want in bad[:6]:
+        chk.fail('C11.L6', f'`{label}`', f'parsed as {got}; the documented table gives {want}', GRAMMAR)
+    if not bad:
+        chk.ok('C11.L6', 'grouping table', f'{n_cases} operator combinations group as documented')
+    chk.count('grouping_cases', n_cases)
+    chk.floor('grouping table cases', n_cases, 500)
+    missing = [n for n in need if n not in funcs]
+    if missing:
+        # the ladder is not there under the names the structural rules know (a restructured grammar): its grouping is
+        # decided by the table alone; what remains structural is the token side
+        chk.ok('C11.L2', 'ladder shape', f'not the recorded ladder (no {", ".join(missing)}): grouping decided by the table (C11.L6)')
+        cls_token = {}
+        for name, c in repo.classes(OPERATORS).items():
+            for st in c.body:
+                if isinstance(st, ast.Assign) and any(isinstance(t, ast.Name) and t.id == 'token' for t in st.targets):
+                    cls_token[name] = src(st.value)
+        optok = {name: (v.value if isinstance(v, ast.Constant) else None) for name, v in repo.enum_members(TOKENS, 'OpToken')}
+        for kind, table in SPEC:
+            for sp, (tok, cls) in table.items():
+                chk.expect(optok.get(tok) == sp, 'C11.L5', f'OpToken.{tok}', f'spelled {optok.get(tok)!r}, documented {sp!r}', TOKENS)
+                if kind == 'is':
+                    continue
+                chk.expect(cls_token.get(cls) == f'OpToken.{tok}', 'C11.L5', f'{cls}.token',
+                           f'class token is {cls_token.get(cls)}, grammar maps OpToken.{tok} to it', OPERATORS)
+        _tail(repo, chk)
+        chk.count('levels', 0)
+        chk.not_decided = ['the print/parse round trip (the repository has no expression printer)',
+                           'grouping beyond the table (pairs, triples by level, two long chains): the ladder shape was not recognised']
+        return
     extra = sorted(n for n in funcs if re.fullmatch(r'ps_expr\w*', n) and n not in need)
     chk.expect(not extra, 'C11.L1', 'expression coroutines', f'unexpected extra expression levels {extra}', GRAMMAR)
 
@@ -291,22 +347,7 @@ def run(repo, chk):
                    f'{sorted(callers.get(lvl, set()))}, expected {sorted(want)}: a level entered from elsewhere bypasses '
                    'the precedence ladder', GRAMMAR)
 
-    # ---- README cross-check -------------------------------------------------------------------------
-    readme = os.path.join(repo.root, 'README.rst')
-    if os.path.exists(readme):
-        text = open(readme, encoding='utf-8').read()
-        m = re.search(r'In order of precedence:\n((?: \*.*\n)+)', text)
-        if m:
-            rows = [re.findall(r'``([^`]+)``', ln) for ln in m.group(1).strip('\n').split('\n')]
-            want_rows = [sorted(t.keys()) for _, t in SPEC]
-            chk.expect([sorted(r) for r in rows] == want_rows, 'C11.L1', 'README operator table',
-                       f'README lists {rows}; checker spec {want_rows}', 'README.rst')
-        else:
-            chk.ok('C11.L1', 'README operator table', 'section not found; transcribed spec used alone')
-    # operators reach the parser as the tokens the ladder expects (longest match, `!=` before the `!` sigil)
-    from . import c12
-    from ..report import Remap
-    c12.run(repo, Remap(chk, {'C12.R3': 'C11.L5', 'C12.R4': 'C11.L5'}))
+    _tail(repo, chk)
     chk.exhaustive = True
     chk.count('levels', 10)
     chk.sample({'ladder': {f'ps_expr{l}': describe(funcs[f'ps_expr{l}'])['ops'] for l in (8, 7, 6, 5, 4)}})
